@@ -517,3 +517,349 @@ Proof.
   destruct (c =? 48) eqn:E1; [lia|].
   destruct ((49 <=? c) && (c <=? 57)) eqn:E2; [lia|discriminate].
 Qed.
+
+(* ---------------------------------------------------------------- documents *)
+
+Section JsonInd.
+  Variable P : json -> Prop.
+  Hypothesis Hnull : P JNull.
+  Hypothesis Hbool : forall b, P (JBool b).
+  Hypothesis Hnum : forall lex, P (JNum lex).
+  Hypothesis Hstr : forall raw s, P (JStr raw s).
+  Hypothesis Harr : forall l, Forall P l -> P (JArr l).
+  Hypothesis Hobj : forall l, Forall (fun kv => P (snd kv)) l -> P (JObj l).
+
+  Fixpoint json_nested_ind (j : json) : P j :=
+    match j with
+    | JNull => Hnull
+    | JBool b => Hbool b
+    | JNum lex => Hnum lex
+    | JStr raw s => Hstr raw s
+    | JArr l =>
+      Harr l ((fix go (l : list json) : Forall P l :=
+                 match l with
+                 | [] => Forall_nil P
+                 | x :: r => Forall_cons x (json_nested_ind x) (go r)
+                 end) l)
+    | JObj l =>
+      Hobj l ((fix go (l : list (bytes * json)) : Forall (fun kv => P (snd kv)) l :=
+                 match l with
+                 | [] => Forall_nil _
+                 | kv :: r => Forall_cons (P := fun kv => P (snd kv)) kv (json_nested_ind (snd kv)) (go r)
+                 end) l)
+    end.
+End JsonInd.
+
+Fixpoint print_elems (html : bool) (l : list json) : bytes :=
+  match l with
+  | [] => [93]
+  | x :: r => print html x ++ match r with [] => [93] | _ => 44 :: print_elems html r end
+  end.
+
+Fixpoint print_members (html : bool) (l : list (bytes * json)) : bytes :=
+  match l with
+  | [] => [125]
+  | (k, x) :: r => quote html k ++ 58 :: print html x ++ match r with [] => [125] | _ => 44 :: print_members html r end
+  end.
+
+Lemma print_arr : forall html l, print html (JArr l) = 91 :: print_elems html l.
+Proof.
+  intros html l. cbn [print]. f_equal.
+  induction l as [|x r IH]; [reflexivity|].
+  cbn [print_elems]. rewrite <- IH. reflexivity.
+Qed.
+
+Lemma print_obj : forall html l, print html (JObj l) = 123 :: print_members html l.
+Proof.
+  intros html l. cbn [print]. f_equal.
+  induction l as [|[k x] r IH]; [reflexivity|].
+  cbn [print_members]. rewrite <- IH. reflexivity.
+Qed.
+
+Lemma skip_ws_nws : forall c r, is_ws c = false -> skip_ws (c :: r) = c :: r.
+Proof. intros c r H. cbn [skip_ws]. rewrite H. reflexivity. Qed.
+
+(* unfolding steps of the mutual parser on the shapes the printer emits *)
+Lemma pv_null : forall k d r, parse_value (S k) d (110 :: 117 :: 108 :: 108 :: r) = Some (JNull, r).
+Proof. reflexivity. Qed.
+Lemma pv_true : forall k d r, parse_value (S k) d (116 :: 114 :: 117 :: 101 :: r) = Some (JBool true, r).
+Proof. reflexivity. Qed.
+Lemma pv_false : forall k d r, parse_value (S k) d (102 :: 97 :: 108 :: 115 :: 101 :: r) = Some (JBool false, r).
+Proof. reflexivity. Qed.
+Lemma pv_str : forall k d r,
+    parse_value (S k) d (34 :: r) =
+    match parse_string r with Some (raw, v, r') => Some (JStr raw v, r') | None => None end.
+Proof. reflexivity. Qed.
+
+Lemma pv_num : forall k d c r, num_start c = true ->
+    parse_value (S k) d (c :: r) =
+    match parse_number (c :: r) with Some (lex, r') => Some (JNum lex, r') | None => None end.
+Proof.
+  intros k d c r H. unfold num_start, is_digit, in_range in H.
+  cbn [parse_value]. rewrite skip_ws_nws by (unfold is_ws; lia).
+  destruct (c =? 123) eqn:E1; [exfalso; lia|].
+  destruct (c =? 91) eqn:E2; [exfalso; lia|].
+  destruct (c =? 34) eqn:E3; [exfalso; lia|].
+  destruct (c =? 116) eqn:E4; [exfalso; lia|].
+  destruct (c =? 102) eqn:E5; [exfalso; lia|].
+  destruct (c =? 110) eqn:E6; [exfalso; lia|]. reflexivity.
+Qed.
+
+Lemma pv_arr_empty : forall k d r, d + 1 <= max_depth ->
+    parse_value (S k) d (91 :: 93 :: r) = Some (JArr [], r).
+Proof.
+  intros k d r H. cbn [parse_value]. rewrite skip_ws_nws by reflexivity.
+  change (91 =? 123) with false. change (91 =? 91) with true. cbv iota.
+  destruct (max_depth <? d + 1) eqn:E; [exfalso; lia|]. reflexivity.
+Qed.
+
+Lemma pv_arr : forall k d c r, d + 1 <= max_depth -> is_ws c = false -> c <> 93 ->
+    parse_value (S k) d (91 :: c :: r) =
+    match parse_elems k (d + 1) (c :: r) [] with Some (l, r') => Some (JArr l, r') | None => None end.
+Proof.
+  intros k d c r H Hw Hc. cbn [parse_value]. rewrite skip_ws_nws by reflexivity.
+  change (91 =? 123) with false. change (91 =? 91) with true. cbv iota.
+  destruct (max_depth <? d + 1) eqn:E; [exfalso; lia|].
+  rewrite skip_ws_nws by exact Hw.
+  deepN c. exfalso; apply Hc; reflexivity.
+Qed.
+
+Lemma pv_obj_empty : forall k d r, d + 1 <= max_depth ->
+    parse_value (S k) d (123 :: 125 :: r) = Some (JObj [], r).
+Proof.
+  intros k d r H. cbn [parse_value]. rewrite skip_ws_nws by reflexivity.
+  change (123 =? 123) with true. cbv iota.
+  destruct (max_depth <? d + 1) eqn:E; [exfalso; lia|]. reflexivity.
+Qed.
+
+Lemma pv_obj : forall k d r, d + 1 <= max_depth ->
+    parse_value (S k) d (123 :: 34 :: r) =
+    match parse_members k (d + 1) (34 :: r) [] with Some (l, r') => Some (JObj l, r') | None => None end.
+Proof.
+  intros k d r H. cbn [parse_value]. rewrite skip_ws_nws by reflexivity.
+  change (123 =? 123) with true. cbv iota.
+  destruct (max_depth <? d + 1) eqn:E; [exfalso; lia|]. reflexivity.
+Qed.
+
+Lemma pe_step : forall k d s acc,
+    parse_elems (S k) d s acc =
+    match parse_value k d s with
+    | None => None
+    | Some (x, r) =>
+      match skip_ws r with
+      | 44 :: r' => parse_elems k d r' (x :: acc)
+      | 93 :: r' => Some (rev (x :: acc), r')
+      | _ => None
+      end
+    end.
+Proof. reflexivity. Qed.
+
+Lemma pm_step : forall k d r0 acc,
+    parse_members (S k) d (34 :: r0) acc =
+    match parse_string r0 with
+    | None => None
+    | Some (_, key, r1) =>
+      match skip_ws r1 with
+      | 58 :: r2 =>
+        match parse_value k d r2 with
+        | None => None
+        | Some (x, r3) =>
+          match skip_ws r3 with
+          | 44 :: r' => parse_members k d r' ((key, x) :: acc)
+          | 125 :: r' => Some (rev ((key, x) :: acc), r')
+          | _ => None
+          end
+        end
+      | _ => None
+      end
+    end.
+Proof. reflexivity. Qed.
+
+Lemma num_start_props : forall c, num_start c = true -> is_ws c = false /\ c <> 93.
+Proof. intros c H. unfold num_start, is_digit, in_range in H. unfold is_ws. lia. Qed.
+
+Lemma print_head : forall html j, printable j = true ->
+    exists c t, print html j = c :: t /\ is_ws c = false /\ c <> 93.
+Proof.
+  intros html j H. destruct j as [|[|]|lex|raw s|l|l].
+  - eexists; eexists; split; [reflexivity|split; [reflexivity|discriminate]].
+  - eexists; eexists; split; [reflexivity|split; [reflexivity|discriminate]].
+  - eexists; eexists; split; [reflexivity|split; [reflexivity|discriminate]].
+  - cbn [printable] in H. destruct (num_ok_head lex H) as (c & t & -> & Hc).
+    exists c, t. split; [reflexivity|]. apply num_start_props; exact Hc.
+  - eexists; eexists; split; [reflexivity|split; [reflexivity|discriminate]].
+  - rewrite print_arr. eexists; eexists; split; [reflexivity|split; [reflexivity|discriminate]].
+  - rewrite print_obj. eexists; eexists; split; [reflexivity|split; [reflexivity|discriminate]].
+Qed.
+
+Lemma print_elems_one : forall html x, print_elems html [x] = print html x ++ [93].
+Proof. reflexivity. Qed.
+Lemma print_elems_cons2 : forall html x y r,
+    print_elems html (x :: y :: r) = print html x ++ 44 :: print_elems html (y :: r).
+Proof. reflexivity. Qed.
+
+Lemma print_members_one : forall html k x,
+    print_members html [(k, x)] = 34 :: quote_body html k ++ 34 :: 58 :: print html x ++ [125].
+Proof.
+  intros. cbn [print_members]. unfold quote. cbn [app]. rewrite <- app_assoc. reflexivity.
+Qed.
+Lemma print_members_cons2 : forall html k x y r,
+    print_members html ((k, x) :: y :: r)
+    = 34 :: quote_body html k ++ 34 :: 58 :: print html x ++ 44 :: print_members html (y :: r).
+Proof.
+  intros. cbn [print_members]. unfold quote. cbn [app]. rewrite <- app_assoc. reflexivity.
+Qed.
+
+Definition PV (html : bool) (j : json) : Prop :=
+  forall fuel depth rest,
+    printable j = true -> depth + jdepth j <= max_depth ->
+    (length (print html j) < fuel)%nat -> rest_ok rest = true ->
+    parse_value fuel depth (print html j ++ rest) = Some (canon html j, rest).
+
+Lemma elems_ok : forall html l, Forall (PV html) l -> l <> [] ->
+    forall fuel depth rest acc,
+      forallb printable l = true ->
+      Forall (fun x => depth + jdepth x <= max_depth) l ->
+      (length (print_elems html l) < fuel)%nat ->
+      parse_elems fuel depth (print_elems html l ++ rest) acc
+      = Some (rev acc ++ map (canon html) l, rest).
+Proof.
+  intros html l. induction l as [|x r IH]; intros HP Hne fuel depth rest acc Hpr Hd Hf; [contradiction|].
+  inversion HP as [|? ? HPx HPr]; subst.
+  inversion Hd as [|? ? Hdx Hdr]; subst.
+  cbn [forallb] in Hpr. apply andb_true_iff in Hpr. destruct Hpr as [Hpx Hpr].
+  destruct fuel as [|k]; [lia|]. rewrite pe_step.
+  destruct r as [|y r'].
+  - rewrite print_elems_one in *. rewrite app_length in Hf. cbn [length] in Hf.
+    rewrite <- app_assoc. cbn [app].
+    rewrite (HPx k depth (93 :: rest) Hpx Hdx) by (try reflexivity; lia).
+    rewrite skip_ws_nws by reflexivity. cbv iota.
+    cbn [rev map]. reflexivity.
+  - rewrite print_elems_cons2 in *. rewrite app_length in Hf. cbn [length] in Hf.
+    rewrite <- app_assoc. cbn [app].
+    rewrite (HPx k depth (44 :: _) Hpx Hdx) by (try reflexivity; lia).
+    rewrite skip_ws_nws by reflexivity. cbv iota.
+    rewrite (IH HPr) by (try discriminate; try assumption; lia).
+    cbn [rev map]. rewrite <- app_assoc. reflexivity.
+Qed.
+
+Lemma members_ok : forall html l, Forall (fun kv => PV html (snd kv)) l -> l <> [] ->
+    forall fuel depth rest acc,
+      forallb (fun kv => printable (snd kv)) l = true ->
+      Forall (fun kv => depth + jdepth (snd kv) <= max_depth) l ->
+      (length (print_members html l) < fuel)%nat ->
+      parse_members fuel depth (print_members html l ++ rest) acc
+      = Some (rev acc ++ map (fun kv => (sanitize (fst kv), canon html (snd kv))) l, rest).
+Proof.
+  intros html l. induction l as [|[key x] r IH]; intros HP Hne fuel depth rest acc Hpr Hd Hf; [contradiction|].
+  inversion HP as [|? ? HPx HPr]; subst.
+  inversion Hd as [|? ? Hdx Hdr]; subst.
+  cbn [forallb snd] in *. apply andb_true_iff in Hpr. destruct Hpr as [Hpx Hpr].
+  destruct fuel as [|k]; [lia|].
+  destruct r as [|y r'].
+  - rewrite print_members_one in *. cbn [length] in Hf. rewrite app_length in Hf. cbn [length] in Hf.
+    rewrite app_length in Hf. cbn [length] in Hf.
+    cbn [app]. rewrite <- app_assoc. cbn [app]. rewrite <- app_assoc. cbn [app].
+    rewrite pm_step. rewrite parse_string_quote.
+    rewrite skip_ws_nws by reflexivity. cbv iota.
+    rewrite (HPx k depth (125 :: rest) Hpx Hdx) by (try reflexivity; lia).
+    rewrite skip_ws_nws by reflexivity. cbv iota.
+    cbn [rev map fst snd]. reflexivity.
+  - rewrite print_members_cons2 in *. cbn [length] in Hf. rewrite app_length in Hf. cbn [length] in Hf.
+    rewrite app_length in Hf. cbn [length] in Hf.
+    cbn [app]. rewrite <- app_assoc. cbn [app]. rewrite <- app_assoc. cbn [app].
+    rewrite pm_step. rewrite parse_string_quote.
+    rewrite skip_ws_nws by reflexivity. cbv iota.
+    rewrite (HPx k depth (44 :: _) Hpx Hdx) by (try reflexivity; lia).
+    rewrite skip_ws_nws by reflexivity. cbv iota.
+    rewrite (IH HPr) by (try discriminate; try assumption; lia).
+    cbn [rev map fst snd]. rewrite <- app_assoc. reflexivity.
+Qed.
+
+Lemma jdepth_fold_arr : forall l m,
+    fold_right (fun x a => N.max (jdepth x) a) 0 l <= m -> Forall (fun x => jdepth x <= m) l.
+Proof.
+  induction l as [|x l IH]; intros m H; [constructor|].
+  cbn [fold_right] in H. constructor; [lia|apply IH; lia].
+Qed.
+
+Lemma jdepth_fold_obj : forall (l : list (bytes * json)) m,
+    fold_right (fun kv a => N.max (jdepth (snd kv)) a) 0 l <= m -> Forall (fun kv => jdepth (snd kv) <= m) l.
+Proof.
+  induction l as [|x l IH]; intros m H; [constructor|].
+  cbn [fold_right] in H. constructor; [lia|apply IH; lia].
+Qed.
+
+Lemma print_elems_head : forall html l, l <> [] -> forallb printable l = true ->
+    exists c t, print_elems html l = c :: t /\ is_ws c = false /\ c <> 93.
+Proof.
+  intros html [|x r] Hne H; [contradiction|].
+  cbn [forallb] in H. apply andb_true_iff in H. destruct H as [Hx _].
+  destruct (print_head html x Hx) as (c & t & Hc & Hw & H93).
+  cbn [print_elems]. rewrite Hc. cbn [app]. eexists; eexists; split; [reflexivity|split; assumption].
+Qed.
+
+Lemma print_members_head : forall html l, l <> [] ->
+    exists t, print_members html l = 34 :: t.
+Proof.
+  intros html [|[k x] r] Hne; [contradiction|].
+  cbn [print_members]. unfold quote. cbn [app]. eexists; reflexivity.
+Qed.
+
+Lemma parse_value_print_all : forall html j, PV html j.
+Proof.
+  intros html j. induction j as [| b | lex | raw s | l IH | l IH] using json_nested_ind;
+    intros fuel depth rest Hpr Hd Hf Hr; (destruct fuel as [|k]; [lia|]).
+  - apply pv_null.
+  - destruct b; [apply pv_true|apply pv_false].
+  - cbn [printable] in Hpr. cbn [print canon].
+    destruct (num_ok_head lex Hpr) as (c & t & Hl & Hc).
+    rewrite Hl at 1. cbn [app]. rewrite pv_num by exact Hc.
+    change (c :: t ++ rest) with ((c :: t) ++ rest). rewrite <- Hl.
+    rewrite parse_number_ok by assumption. reflexivity.
+  - cbn [print canon]. unfold quote. cbn [app]. rewrite <- app_assoc. cbn [app].
+    rewrite pv_str, parse_string_quote. reflexivity.
+  - rewrite print_arr in *. cbn [canon printable jdepth length] in *.
+    destruct l as [|x r].
+    + cbn [print_elems app map]. apply pv_arr_empty. cbn [fold_right] in Hd. lia.
+    + assert (Hne : x :: r <> []) by discriminate.
+      destruct (print_elems_head html (x :: r) Hne Hpr) as (c & t & Hc & Hw & H93).
+      cbn [app]. rewrite Hc. cbn [app]. rewrite pv_arr by (try assumption; lia).
+      change (c :: t ++ rest) with ((c :: t) ++ rest). rewrite <- Hc.
+      rewrite (elems_ok html (x :: r) IH Hne k (depth + 1) rest []); [reflexivity|assumption| |lia].
+      eapply Forall_impl; [|apply (jdepth_fold_arr (x :: r) (max_depth - (depth + 1))); lia].
+      cbn beta. intros a Ha. lia.
+  - rewrite print_obj in *. cbn [canon printable jdepth length] in *.
+    destruct l as [|kv r].
+    + cbn [print_members app map]. apply pv_obj_empty. cbn [fold_right] in Hd. lia.
+    + assert (Hne : kv :: r <> []) by discriminate.
+      destruct (print_members_head html (kv :: r) Hne) as (t & Hc).
+      cbn [app]. rewrite Hc. cbn [app]. rewrite pv_obj by lia.
+      change (34 :: t ++ rest) with ((34 :: t) ++ rest). rewrite <- Hc.
+      rewrite (members_ok html (kv :: r) IH Hne k (depth + 1) rest []); [reflexivity|assumption| |lia].
+      eapply Forall_impl; [|apply (jdepth_fold_obj (kv :: r) (max_depth - (depth + 1))); lia].
+      cbn beta. intros a Ha. lia.
+Qed.
+
+Lemma parse_value_print : forall html j fuel depth rest,
+    printable j = true -> depth + jdepth j <= max_depth ->
+    (length (print html j) < fuel)%nat -> rest_ok rest = true ->
+    parse_value fuel depth (print html j ++ rest) = Some (canon html j, rest).
+Proof. intros html j. exact (parse_value_print_all html j). Qed.
+
+Theorem parse_print : forall html j, printable j = true -> jdepth j <= max_depth ->
+    parse (print html j) = Some (canon html j).
+Proof.
+  intros html j Hp Hd. unfold parse.
+  rewrite <- (app_nil_r (print html j)) at 2.
+  rewrite parse_value_print by (try assumption; try reflexivity; lia). reflexivity.
+Qed.
+
+Corollary print_wf : forall html j, printable j = true -> jdepth j <= max_depth ->
+    json_wf (print html j) = true.
+Proof. intros html j Hp Hd. unfold json_wf. rewrite parse_print by assumption. reflexivity. Qed.
+
+Print Assumptions parse_print.
+Print Assumptions print_wf.
+Print Assumptions sanitize_idem.
+Print Assumptions parse_string_quote.
